@@ -122,16 +122,18 @@ class C18(Plugin):
             for var, sparql in variants(u, SAME if is_pred else OTHER_P):
                 try:
                     res = graph.query(sparql, processor=proc)
-                    row.append(sorted(str(b[0]) for b in res))
+                    # the answers must be IRI terms (a plain str cannot be serialised as a SPARQL result)
+                    row.append(sorted(str(b[0]) if isinstance(b[0], rdflib.URIRef) else f"<not an IRI term: {type(b[0]).__name__} {b[0]!r}>" for b in res))
                 except Exception as e:
                     row.append(["<error: " + type(e).__name__ + ">"])
             if qi == 0:
                 # the same query over HTTP: Flask GET and POST, FastAPI GET
-                var, sparql = variants(u, SAME if is_pred else OTHER_P)[0]
-                web = self.web_answers(c, sparql, var)
-                for name, ans in web:
-                    if ans != row[0]:
-                        row[0] = [f"<{name} differs: {ans}>"]
+                for vi in (0, 2):     # ?s bound and ?o bound
+                    var, sparql = variants(u, SAME if is_pred else OTHER_P)[vi]
+                    web = self.web_answers(c, sparql, var)
+                    for name, ans in web:
+                        if ans != row[vi]:
+                            row[vi] = [f"<{name} differs: {ans}>"]
             qa.append(row)
         ha = []
         fl = get_flask_mapping_app(c).test_client()
